@@ -20,7 +20,7 @@ func recParts(form string, d int) (string, string) {
 	case "apply":
 		return "function f(n){ if (n > 1) f.apply(null, [n - 1]); return 7 }", fmt.Sprintf("f(%d)", d)
 	case "bind":
-		return "var b = null; function f(n){ if (n > 1) b(n - 1); return 7 } b = f.bind(null);", fmt.Sprintf("f(%d)", d)
+		return "var b = null; function f(n){ if (n > 1) b(n - 1); return 7 }", fmt.Sprintf("(b = f.bind(null), f(%d))", d)
 	case "forEach":
 		return "function f(n){ if (n > 1) [n - 1].forEach(f); return 7 }", fmt.Sprintf("f(%d)", d)
 	case "getter":
